@@ -112,6 +112,27 @@ def compat(t, want) -> bool:
     return False
 
 
+def param_is_written(name: str, body: list) -> bool:
+    """Does the body change the object bound to this parameter (or hand it to something that might)?"""
+    for st in body:
+        for n in ast.walk(st):
+            if isinstance(n, ast.Attribute) and isinstance(n.ctx, ast.Store) and isinstance(n.value, ast.Name) and n.value.id == name:
+                return True
+            if isinstance(n, ast.Call):
+                if isinstance(n.func, ast.Attribute) and isinstance(n.func.value, ast.Name) and n.func.value.id == name \
+                        and n.func.attr in ("CopyFrom", "Clear", "MergeFrom", "append", "extend", "add", "clear"):
+                    return True
+                for a in list(n.args) + [kw.value for kw in n.keywords]:
+                    if isinstance(a, ast.Name) and a.id == name and not (isinstance(n.func, ast.Name) and n.func.id in ("len", "type", "isinstance", "getattr")):
+                        return True
+                    if isinstance(a, ast.Attribute) and isinstance(a.value, ast.Name) and a.value.id == name \
+                            and not (isinstance(n.func, ast.Name) and n.func.id in ("len", "type", "isinstance", "getattr")):
+                        return True  # a sub-message handed on
+            if isinstance(n, ast.Name) and n.id == name and isinstance(n.ctx, ast.Store):
+                return True
+    return False
+
+
 def is_mutable(t) -> bool:
     """Values Python passes by reference and the translated source may change in place."""
     if t == ("seq", "int"):
@@ -218,6 +239,7 @@ class Translator:
         self.functions: dict[str, tuple[list, object]] = {}
         self.int_sets: dict[str, list] = {}
         self.dict_consts: dict[str, tuple[list[tuple[str, str]], object]] = {}  # module-level {int: class} tables
+        self.readonly_params: dict[str, set[str]] = {}  # function -> message parameters it only reads
         self.str_consts: dict[str, str] = {}  # module-level string constants of pyjelly/options.py
         self.method_selection: dict[str, list[str]] = {}  # class -> the methods that belong to the unit
         self.virtual_methods: dict[str, list[str]] = {}  # class -> methods that subclasses override (parameters of the translation)
@@ -231,6 +253,9 @@ class Translator:
 
     # ------------------------------------------------------------------ classes
     def add_class(self, node: ast.ClassDef):
+        if [ast.unparse(b) for b in node.bases] == ["NamedTuple"]:
+            FROZEN.add(node.name)
+            return self.add_dataclass(node)
         if any((isinstance(d, ast.Call) and isinstance(d.func, ast.Name) and d.func.id == "dataclass") or (isinstance(d, ast.Name) and d.id == "dataclass")
                for d in node.decorator_list) \
                 and not any(isinstance(n, ast.FunctionDef) and n.name == "__init__" for n in node.body):
@@ -397,7 +422,8 @@ def generator_parts(ret, muts: list, env: dict):
 
 
 def emit_function(tr: Translator, name: str, body_stmts: list, params: list, ret) -> None:
-    muts = [(p, t) for p, t in params if is_mutable(t)]
+    muts = [(p, t) for p, t in params if is_mutable(t) and not (t[0] == "pb" and not param_is_written(p, body_stmts))]
+    tr.readonly_params[name] = {p for p, t in params if is_mutable(t) and (p, t) not in muts}
     env0 = {p: t for p, t in params}
     ret, muts, env0, pre = generator_parts(ret, muts, env0)
     mode = FuncMode(tr, ret, muts)
@@ -983,6 +1009,9 @@ class Mode:
                 if e.attr in vals:
                     return k(f"({vals[e.attr]})", "int")
             bad(e, "unknown constant of the jelly module")
+        if isinstance(e, ast.Attribute) and isinstance(e.value, ast.Name) and isinstance(env.get(e.value.id), tuple) and env[e.value.id][0] == "pb":
+            v, t = self.msg_read(mangle(e.value.id), env[e.value.id][1], e.attr, e)
+            return k(v, t)
         if isinstance(e, ast.Attribute):
             v, t = self.attr(e)
             return k(v, t)
@@ -1126,6 +1155,36 @@ class Mode:
             return self.call(e, env, k)
         bad(e, "expression")
 
+    def msg_read(self, m: str, mtype: str, field: str, node) -> tuple[str, object]:
+        """m.<field> for a message value m of class mtype: the field's value or its proto3 default."""
+        if "|" in mtype:
+            cands = [c for c in mtype.split("|") if any(d["name"] == field for d in MESSAGES[c])]
+            if not cands:
+                bad(node, f"no message of {mtype} has a field {field}")
+            fds = [next(d for d in MESSAGES[c] if d["name"] == field) for c in cands]
+            if any((d["type"], d["label"], d["type_name"]) != (fds[0]["type"], fds[0]["label"], fds[0]["type_name"]) for d in fds):
+                bad(node, "the field has different types in the alternatives")
+            fd = fds[0]
+        else:
+            fd = next((d for d in MESSAGES[mtype] if d["name"] == field), None)
+            if fd is None:
+                bad(node, f"{mtype} has no field {field}")
+        sub = fd["type_name"].split(".")[-1]
+        if fd["label"] == 3:
+            et = ("pb", sub) if fd["type"] == 11 else "int" if fd["type"] in (5, 13, 3, 4, 14) else "str" if fd["type"] == 9 else None
+            if et is None or fd["type"] != 11:
+                bad(node, "repeated field of this type")
+            return f'(msg_rep "{field}"%string {m})', ("seq", et)
+        if fd["type"] == 11:
+            return f'(msg_sub "{field}"%string "{sub}"%string {m})', ("pb", sub)
+        if fd["type"] in (5, 13, 3, 4, 14):
+            return f'(msg_int "{field}"%string {m})', "int"
+        if fd["type"] == 8:
+            return f'(msg_bool "{field}"%string {m})', "bool"
+        if fd["type"] == 9:
+            return f'(msg_str str_empty "{field}"%string {m})', "str"
+        bad(node, "field type")
+
     def attr(self, e) -> tuple[str, object]:
         """self.f / self.f.g (pure reads)."""
         if isinstance(e.value, ast.Name) and e.value.id == "self":
@@ -1240,7 +1299,8 @@ class Mode:
         f = e.func
         r, o, ex, x = tr.gensym("r"), tr.gensym("o"), tr.gensym("e"), tr.gensym("x")
         # module-level functions of the unit
-        if isinstance(f, ast.Name) and f.id in tr.functions and any(is_mutable(t) for _, t in tr.functions[f.id][0]):
+        if isinstance(f, ast.Name) and f.id in tr.functions and any(is_mutable(t) and p not in tr.readonly_params.get(f.id, set())
+                                                                    for p, t in tr.functions[f.id][0]):
             params, ret = tr.functions[f.id]
             return self.call_static(f.id, e, params, ret, env, k)
         if isinstance(f, ast.Name) and f.id in tr.functions:
@@ -1300,6 +1360,15 @@ class Mode:
             return self.expr(e.args[0], env, lambda it, itt: self.expr(e.keywords[0].value, env, lambda n, nt: (
                 f"match deque_make {it} {n} with\n| Exn {ex} => {self.on_exn(ex)}\n| Val {x} =>\n{k(x, itt)}\nend"
                 if nt == "int" and isinstance(itt, tuple) and itt[0] == "seq" else bad(e, "deque arguments"))))
+        # getattr(m, "field", default) on a message: the field if the class has it, else the default
+        if isinstance(f, ast.Name) and f.id == "getattr" and len(e.args) == 3 and not e.keywords and isinstance(e.args[0], ast.Name) \
+                and isinstance(env.get(e.args[0].id), tuple) and env[e.args[0].id][0] == "pb" and isinstance(e.args[1], ast.Constant) \
+                and isinstance(e.args[1].value, str):
+            mt = env[e.args[0].id][1]
+            if "|" not in mt and any(d["name"] == e.args[1].value for d in MESSAGES[mt]):
+                v, t = self.msg_read(mangle(e.args[0].id), mt, e.args[1].value, e)
+                return k(v, t)
+            return self.expr(e.args[2], env, k)
         # issubclass(c, B) for a class value c of a family
         if isinstance(f, ast.Name) and f.id == "issubclass" and len(e.args) == 2 and not e.keywords and isinstance(e.args[1], ast.Name) \
                 and e.args[1].id in getattr(tr, "class_tags", {}):
@@ -1601,6 +1670,8 @@ UNITS = {
     "streams": {"src": "pyjelly/serialize/streams.py", "ctx": True, "uses": ["lookup_enc", "options", "encode", "flows"], "gen": "StreamsGen",
                 "items": ["SerializerOptions",
                           {"family": "Stream", "classes": ["Stream", "TripleStream", "QuadStream", "GraphStream"]}]},
+    "decode": {"src": "pyjelly/parse/decode.py", "ctx": True, "uses": ["lookup_dec", "options"], "gen": "DecodeGen",
+               "items": ["ParserOptions", "options_from_frame"]},
     "encode": {"src": "pyjelly/serialize/encode.py", "ctx": True, "uses": ["lookup_enc", "options"], "gen": "EncodeGen",
                "items": ["split_iri", ("TermEncoder", ["__init__", "start_statement", "_entry_index", "encode_iri_indices", "encode_iri",
                                                        "encode_default_graph", "encode_literal"], ["encode_spo", "encode_graph"]),
@@ -1817,7 +1888,7 @@ def run_unit(repo: Path, unit: str) -> tuple["Translator", set[str], list[str]]:
             tr.dict_consts[item_name(n)] = (entries, vt)
             continue
         if isinstance(n, ast.ClassDef):
-            if n.bases or n.keywords:
+            if (n.bases and [ast.unparse(b) for b in n.bases] != ["NamedTuple"]) or n.keywords:
                 bad(n, "base classes")
             tr.out.append(f"(* ---- class {n.name} ({rel}) *)")
             tr.add_class(n)
